@@ -24,6 +24,17 @@ Bounded-exhaustive exploration of gemato's hashing entry points:
   verify_path_static / update_entry_static
                      verify_path / update_entry_for_path on an entry WITHOUT checksums (size only)
                      whose size is / is not the size of an unchanging file
+  hash_file_iter / hash_path_iter / get_file_metadata_iter
+                     the same calls with the hash names handed over in every KIND OF ITERABLE
+                     (list, tuple, set, frozenset, dict keys view, iter(list), generator expression,
+                     the iterable gemato.manifest.manifest_hashes_to_hashlib() returns, lists and
+                     generators naming every hash twice) and '__size__' absent / last / first:
+                     every requested name must be in the result with the reference digest
+  get_hash_by_name / verify_path_names + the entry points above
+                     over the SPELLING alphabet of hash names: every name hashlib / the Manifest
+                     table knows, in every case / separator / blank variant, the digest names,
+                     aliases and OIDs OpenSSL documents, and special strings ('null', '',
+                     misspelt '__size__', ...), alone and before / after a supported name
 
 For the first three the file object is an io.BufferedReader over ScriptedRaw, an
 io.RawIOBase whose readinto() never crosses a scripted cut position, i.e. it returns
@@ -40,14 +51,28 @@ Oracle (three-valued):
                    raise gemato.exceptions.UnsupportedHash (CLI: exit 1 with an ERROR log
                    line); a result, or any other exception type, is a violation
   DONT_CARE        hashlib XOF names (shake_*): no parameterless standard digest exists and
-                   they are not Manifest names
+                   they are not Manifest names; the size pseudo-name '__size__' used as a
+                   Manifest name; verify_path answering (False, diff) for an entry that carries
+                   an unsupported name
+
+A name is supported iff it is, character for character, one of the ten Manifest names of the
+independent table (Manifest kind) / a member of hashlib.algorithms_available that hashlib.new()
+accepts, or '__size__' (hashlib kind).  Nothing else is: not another spelling of a supported
+name, not a name only the crypto backend resolves.
+
+The buffering thresholds of gemato.hash are tuning constants, not part of the property: the
+length windows always include the ones around 64 KiB, 128 KiB and 1 MiB; the current values of
+gemato.hash.MAX_SLURP_SIZE / HASH_BUFFER_SIZE, when those attributes exist, only ADD windows;
+when they do not exist, windows around every power of two from 4 KiB to 4 MiB are added.
 """
 
 import array
 import hashlib
 import io
+import itertools
 import json
 import os
+import re
 import subprocess
 import sys
 
@@ -62,7 +87,14 @@ from gverif.evidence import Stats, digest, jsonable
 PID = 'C17'
 LEVEL = 'exploration'
 RULE = ('every content length in 0..300, 65534..65538, 131070..131074, 1048574..1048578 (thorough: '
-        '+2097151..2097153), content = prefix of a position-dependent pattern; x every name set '
+        '+2097151..2097153); ADAPTIVE windows: +-2 around the current values of gemato.hash.HASH_BUFFER_SIZE, '
+        '2 x HASH_BUFFER_SIZE and MAX_SLURP_SIZE when those attributes exist, are positive ints <= 4 MiB and '
+        'are not a default centre (the constants are only a hint where to look; full treatment, in the quick tier '
+        'with the reduced 1/2/3/7-byte schedules above 200000 bytes); if either attribute is absent or not such an int: '
+        '+-1 around every power of two 4 KiB..4 MiB not covered yet (light treatment: group name sets + one name per '
+        'kind, schedules whole / 4096 / 65536 / halving / one short read within +-2 of the window centre and at '
+        '1, 2, n/2, n-2, n-1, every hint, no peek, no 1/2/3/7-byte schedules; real files as for every length); '
+        'content = prefix of a position-dependent pattern; x every name set '
         '(each of the 10 Manifest names, 4 names outside the table, every hashlib.algorithms_available '
         'name accepted by hashlib.new() without parameters, 2 unavailable hashlib names, the all-available '
         'Manifest group, the all-fixed-length hashlib group, supported+unsupported mixes, the empty set) '
@@ -86,7 +118,26 @@ RULE = ('every content length in 0..300, 65534..65538, 131070..131074, 1048574..
         'before the change (verify_path_racing); every length x entry size in {n, n+1, n-1, 0, 2n} with an entry '
         'without checksums through verify_path and update_entry_for_path (hashes=None and hashes=[]) on an '
         'unchanging file. '
-        'A case = (entry point, n, name set, hint, schedule, peek | change, entry size); distinct by that tuple; non-trivial = '
+        'KINDS OF ITERABLE (hash_file_iter, hash_path_iter, get_file_metadata_iter): every length in {0, 1, 2, 3, 100, 300} '
+        '(thorough: 0..16, 100, 300) and c, c+1 (thorough: c-1, c, c+1) for every fully treated window centre c x every name set '
+        '(above 300 bytes in the quick tier: the group / mixed / empty sets and one name per kind) x every container in {list, tuple, '
+        'set, frozenset, dict keys view, iter(list), generator expression, the iterable returned by gemato.manifest.'
+        'manifest_hashes_to_hashlib (Manifest kind), list naming every hash twice (a b a b / a a b b), generator naming every hash '
+        'twice} x __size__ in {absent, last, first} x {hash_file over the scripted reader with hint in {0, n} and schedule in {whole, '
+        '1-byte steps (n <= 300) / 4096-byte steps}, hash_path on a real file}; get_file_metadata with the Manifest names in every '
+        'container but the mapped one (quick tier above 300 bytes: __size__ in {absent, last}, schedule whole only). '
+        'SPELLINGS (get_hash_by_name, hash_bytes, hash_file, hash_path / hash_file_mapped, hash_path_mapped, get_file_metadata, '
+        'verify_path_names, cli_hash, cli_stdin): every length in {0, 100} (thorough: + 1, 65537) x every name in the spelling alphabet: '
+        'for every base name in hashlib.algorithms_available + algorithms_guaranteed + the ten Manifest names + ripemd160 + whirlpool: '
+        'the name itself, its separator variants (_ to -, - to _, separators dropped, - or _ inserted before the first digit run), '
+        'each of those in upper / lower / capitalised / title / swapped / alternating case, and the name and its upper case with a '
+        'leading blank, trailing blank, leading tab, trailing newline, trailing NUL; every digest name, alias and signature-algorithm '
+        'name in a fixed list taken from the OpenSSL documentation as written / upper / lower / capitalised; the dotted OIDs of those digests; '
+        'special strings (empty, blank, null, none, undefined, default, prefixes and extensions of real names, misspelt __size__); '
+        'x position in {alone, before a supported name, after a supported name} (hash_file / hash_file_mapped with hint 0, get_file_metadata; '
+        'cli_hash: alone and together with a supported name) and alone under hints {0, n} / '
+        'through the other entry points; names that are empty or contain white space or NUL are not driven through the CLI (argument splitting). '
+        'A case = (entry point, n, name set, hint, schedule, peek | change, entry size | container, __size__ position); distinct by that tuple; non-trivial = '
         'n > 0 and the reference verdict is definite (digest or unsupported, not DONT_CARE)')
 ASSUMPTIONS = [
     'trusted base: CPython hashlib one-shot digests (cross-checked against coreutils md5sum/sha1sum/'
@@ -98,7 +149,22 @@ ASSUMPTIONS = [
     '(library) or exit 1 + ERROR log (CLI); hashlib XOFs (shake_*) are DONT_CARE',
     'real files live on tmpfs where st_size is exact; file systems reporting st_size 0 are covered only '
     'through the scripted hint 0',
-    'lengths between the windows (301..65533 etc.) and beyond 2 MiB+1 are not enumerated',
+    'lengths between the windows (301..65533 etc.) and beyond 2 MiB+1 (4 MiB+1 when the power-of-two fallback windows '
+    'are in use) are not enumerated; gemato.hash.MAX_SLURP_SIZE / HASH_BUFFER_SIZE are read only to ADD windows around '
+    'their current values (values above 4 MiB are noted and not explored); the check does not depend on their presence or value; '
+    'the self-checks that need to know where the slurp / chunked switch is (path-observation counters) are enforced only '
+    'while both constants have their default values and are downgraded to notes otherwise; which read sizes the raw stream '
+    'was asked for (8192-byte readall vs HASH_BUFFER_SIZE read1) is recorded as an observation and never enforced',
+    'supported names are exactly: the ten Manifest names of gverif/refmanifest.HASHES whose algorithm this OpenSSL provides '
+    '(Manifest kind); the members of hashlib.algorithms_available that hashlib.new() accepts, and the size pseudo-name __size__ '
+    '(hashlib kind).  Every other string must raise UnsupportedHash (CLI: exit 1 + ERROR log) and never yield a digest; the '
+    'spelling alphabet is judged by membership in those sets computed at run time, so a Python whose algorithms_available also '
+    'lists e.g. upper-case names turns those spellings into digest cases.  Non-string names are out of scope.  __size__ used as '
+    'a Manifest name and verify_path returning (False, diff) for an entry with an unsupported name are DONT_CARE; verify_path '
+    'returning (True, ...) for such an entry is a violation (name ignored)',
+    'kinds of iterable: a requested name missing from the result, or with another value than the one-shot digest, is a '
+    'violation whatever container the names came in; keys that were not requested are counted, not judged; sets iterate in '
+    'the order PYTHONHASHSEED=0 gives',
     'changing files: the change happens strictly between two next() calls of the consumer (after st_mtime, '
     'before the checksum dict), so "the content" is the file as it is from then on; writers running '
     'concurrently with the read itself are out of scope.  update_entry_for_path is not driven over a file '
@@ -109,14 +175,88 @@ SMALL_MAX = 300
 COMP_MAX = 10
 STEPS_HEAVY = (1, 2, 3, 7)
 STEPS_LIGHT = (4096, 65535, 65536, 65537)
-THRESHOLDS = (8192, 65536, 131072, 1048576, 2097152)
 BIG = 2 ** 40
+
+# ---- length windows.  The defaults are fixed; gemato.hash's tuning constants are only a hint where to look in addition.
+DEFAULT_BUFFER = 65536
+DEFAULT_SLURP = 1048576
+DEFAULT_CENTRES = (65536, 131072, 1048576)
+THOROUGH_CENTRE = 2097152                       # +-1, thorough tier only
+BASE_SHORT_AT = (8192, 65536, 131072, 1048576, 2097152)
+FALLBACK_CENTRES = tuple(1 << k for k in range(12, 23))      # 4 KiB .. 4 MiB, +-1, light treatment
+MAX_CENTRE = 1 << 22
+HEAVY_FULL_MAX = 200000     # quick tier: above this the 1/2/3/7-byte schedules run with reduced name sets
+
+
+def _tuning_value(name):
+    v = getattr(ghash, name, None)
+    return v if type(v) is int and v > 0 else None
+
+
+def tuning():
+    """Current values of gemato's tuning constants, None where the attribute is absent / not a positive int."""
+    return {'slurp': _tuning_value('MAX_SLURP_SIZE'), 'buffer': _tuning_value('HASH_BUFFER_SIZE')}
+
+
+def tuning_is_default():
+    return tuning() == {'slurp': DEFAULT_SLURP, 'buffer': DEFAULT_BUFFER}
+
+
+def hinted_centres():
+    """-> (centres to add because a tuning constant points there, values beyond the bound)"""
+    t = tuning()
+    cand = [t['buffer'], 2 * t['buffer'] if t['buffer'] else None, t['slurp']]
+    add, beyond = [], []
+    for v in cand:
+        if v is None or v in DEFAULT_CENTRES or v in add or v in beyond:
+            continue
+        if v > MAX_CENTRE:
+            beyond.append(v)
+        elif v - 2 > SMALL_MAX:          # otherwise every length around it is enumerated anyway
+            add.append(v)
+    return add, beyond
+
+
+_WIN = {}
+
+
+def windows(tier):
+    """-> {length: (treatment, centre)} for the enumerated lengths above SMALL_MAX; treatment 'full' | 'light'."""
+    w = _WIN.get(tier)
+    if w is None:
+        w = {}
+        full = [(c, 2) for c in DEFAULT_CENTRES]
+        if tier != 'quick':
+            full.append((THOROUGH_CENTRE, 1))
+        full += [(c, 2) for c in hinted_centres()[0]]
+        for c, r in full:
+            for L in range(c - r, c + r + 1):
+                w.setdefault(L, ('full', c))
+        t = tuning()
+        if t['slurp'] is None or t['buffer'] is None:
+            for c in FALLBACK_CENTRES:
+                for L in range(c - 1, c + 2):
+                    w.setdefault(L, ('light', c))
+        _WIN[tier] = w
+    return w
+
+
+def full_centres(tier):
+    return sorted({c for t, c in windows(tier).values() if t == 'full'})
+
+
+def max_length(tier):
+    """Longest content any shard of the tier builds (changing files append up to 1 MiB)."""
+    return max(max(windows(tier)), max(changing_lengths(tier)) + max(APPEND.values()))
 
 MANIFEST_NAMES = tuple(rm.HASHES)
 UNKNOWN_MANIFEST = ('FOO', 'sha256', 'SHA224', 'SHA3_384')
 COREUTILS = (('MD5', 'md5sum'), ('SHA1', 'sha1sum'), ('SHA256', 'sha256sum'),
              ('SHA512', 'sha512sum'), ('BLAKE2B', 'b2sum'))
 XOF_REASON = 'hashlib XOF name: no parameterless standard digest, not a Manifest name'
+SIZE_REASON = "the size pseudo-name '__size__' used as a Manifest name: the statement does not say whether it is a hash name"
+DIFF_REASON = ('verify_path answered (False, diff) for an entry with an unsupported hash name: reported as a mismatch, '
+               'the statement does not fix the channel')
 
 SCRIPTED = ('hash_file', 'hash_file_mapped', 'cli_stdin')
 
@@ -124,12 +264,13 @@ SCRIPTED = ('hash_file', 'hash_file_mapped', 'cli_stdin')
 # ---------------------------------------------------------------- contents
 
 _PATTERN = {}
+_PATTERN_MIN = [0]       # setup() raises this to the longest content of the tier so that the pattern is built once
 
 
 def pattern(seed, n):
     """First n bytes of the seed's pattern: little-endian 32-bit words
     (i * 0x9E3779B1 + off) mod 2^32 — a bijection of i, so every aligned word is unique."""
-    need = 4096 if n <= 4096 else (2 * 1048576 + 64)
+    need = 4096 if n <= 4096 else max(2 * 1048576 + 64, _PATTERN_MIN[0], (n + 67) // 4 * 4)
     have = _PATTERN.get(seed)
     if have is None or len(have) < need:
         off = (0x5BD1E995 + seed * 0x01000193) & 0xFFFFFFFF
@@ -197,8 +338,13 @@ def expectation(kind, names):
     r = _EXP.get(key)
     if r is None:
         if kind == 'manifest':
-            bad = [n for n in names if n not in rm.HASHES or not rm.available(n)]
-            r = ('unsupported', bad) if bad else ('digest', None)
+            bad = [n for n in names if n != '__size__' and (n not in rm.HASHES or not rm.available(n))]
+            if bad:
+                r = ('unsupported', bad)
+            elif '__size__' in names:
+                r = ('dontcare', SIZE_REASON)
+            else:
+                r = ('digest', None)
         else:
             acc, fixed = hashlib_accepted()
             bad = [n for n in names if n not in acc]
@@ -210,6 +356,185 @@ def expectation(kind, names):
                 r = ('digest', None)
         _EXP[key] = r
     return r
+
+
+# ---------------------------------------------------------------- kinds of iterable
+
+CONTAINERS = ('list', 'tuple', 'set', 'frozenset', 'dict_keys', 'iter_list', 'genexpr', 'mapped_gen',
+              'list_dup', 'list_dup_adjacent', 'genexpr_dup')
+ONE_SHOT = ('iter_list', 'genexpr', 'mapped_gen', 'genexpr_dup')
+SIZEPOS = ('absent', 'last', 'first')
+ITER_ENTRIES = ('hash_file_iter', 'hash_path_iter', 'get_file_metadata_iter')
+
+
+def make_container(container, req):
+    """A fresh iterable of kind ``container`` over the names ``req`` (a list)."""
+    if container == 'list':
+        return list(req)
+    if container == 'tuple':
+        return tuple(req)
+    if container == 'set':
+        return set(req)
+    if container == 'frozenset':
+        return frozenset(req)
+    if container == 'dict_keys':
+        return dict.fromkeys(req).keys()
+    if container == 'iter_list':
+        return iter(list(req))
+    if container == 'genexpr':
+        return (x for x in list(req))
+    if container == 'list_dup':
+        return list(req) + list(req)
+    if container == 'list_dup_adjacent':
+        return [x for x in req for _ in (0, 1)]
+    if container == 'genexpr_dup':
+        return (x for x in list(req) * 2)
+    raise ValueError(container)
+
+
+def with_size(seq, sizepos):
+    if sizepos == 'absent':
+        return list(seq)
+    return list(seq) + ['__size__'] if sizepos == 'last' else ['__size__'] + list(seq)
+
+
+def hashlib_request(container, sizepos, kind, names):
+    """The iterable of hashlib-level names handed to hash_file / hash_path."""
+    if container == 'mapped_gen':
+        g = gman.manifest_hashes_to_hashlib(list(names))       # whatever kind of iterable gemato returns
+        if sizepos == 'last':
+            return itertools.chain(g, ['__size__'])
+        if sizepos == 'first':
+            return itertools.chain(['__size__'], g)
+        return g
+    if kind == 'manifest':
+        names = list(gman.manifest_hashes_to_hashlib(list(names)))
+    return make_container(container, with_size(names, sizepos))
+
+
+def iter_namesets(L, tier):
+    sets = namesets()
+    if L > SMALL_MAX and tier == 'quick':
+        red = {n for _k, n, _g in reduced_namesets()}
+        sets = [x for x in sets if x[2] or x[1] in red]
+    return sets
+
+
+def iter_lengths(tier):
+    small = [0, 1, 2, 3, 100, 300] if tier == 'quick' else list(range(0, 17)) + [100, 300]
+    large = []
+    for c in full_centres(tier):
+        large += [c, c + 1] if tier == 'quick' else [c - 1, c, c + 1]
+    return small + [L for L in sorted(set(large)) if L in windows(tier)]
+
+
+def iter_combos(L, tier):
+    """-> list of (sizepos, hint selector, schedule) for hash_file_iter and list of sizepos for hash_path_iter"""
+    if L > SMALL_MAX and tier == 'quick':
+        poss, scheds = ('absent', 'last'), [('whole', 0, ())]
+    else:
+        poss = SIZEPOS
+        scheds = [('whole', 0, ()), ('step1', 1, ())] if L <= SMALL_MAX else [('whole', 0, ()), ('step4096', 4096, ())]
+    hints = sorted({0, L})
+    return [(sp, h, sc) for sp in poss for h in hints for sc in scheds], list(poss)
+
+
+# ---------------------------------------------------------------- spellings of hash names
+
+# digest names, aliases and signature-algorithm names as the OpenSSL documentation (EVP_MD-*(7), objects.txt) writes them
+OPENSSL_NAMES = (
+    'MD2', 'MD4', 'MD5', 'MD5-SHA1', 'MDC2', 'SSL3-MD5', 'SSL3-SHA1', 'SHA', 'SHA1', 'SHA-1', 'DSA-SHA', 'RSA-SHA1',
+    'SHA2-224', 'SHA-224', 'SHA224', 'SHA2-256', 'SHA-256', 'SHA256', 'SHA2-384', 'SHA-384', 'SHA384',
+    'SHA2-512', 'SHA-512', 'SHA512', 'SHA2-512/224', 'SHA-512/224', 'SHA512-224', 'SHA2-512/256', 'SHA-512/256',
+    'SHA512-256', 'SHA3-224', 'SHA3-256', 'SHA3-384', 'SHA3-512', 'SHAKE-128', 'SHAKE128', 'SHAKE-256', 'SHAKE256',
+    'KECCAK-224', 'KECCAK-256', 'KECCAK-384', 'KECCAK-512', 'KECCAK-KMAC-128', 'KECCAK-KMAC128', 'KECCAK-KMAC-256',
+    'KECCAK-KMAC256', 'BLAKE2B-512', 'BLAKE2b512', 'BLAKE2S-256', 'BLAKE2s256', 'RIPEMD-160', 'RIPEMD160', 'RIPEMD',
+    'RMD160', 'SM3', 'WHIRLPOOL', 'GOST', 'md_gost94', 'streebog256', 'streebog512', 'NULL', 'UNDEF', 'undefined',
+    'RSA-MD5', 'RSA-SHA256', 'RSA-SHA512', 'RSA-SHA3-256', 'sha256WithRSAEncryption', 'sha1WithRSAEncryption',
+    'md5WithRSAEncryption', 'ecdsa-with-SHA256', 'id-sha256', 'id-sha512', 'id-rsassa-pkcs1-v1_5-with-sha3-256',
+    'hmacWithSHA256', 'hmac-md5', 'HMAC',
+)
+OIDS = (
+    '1.2.840.113549.2.2', '1.2.840.113549.2.4', '1.2.840.113549.2.5',                  # md2 md4 md5
+    '1.3.14.3.2.26', '1.3.14.3.2.18',                                                    # sha1 sha
+    '2.16.840.1.101.3.4.2.1', '2.16.840.1.101.3.4.2.2', '2.16.840.1.101.3.4.2.3',        # sha256 sha384 sha512
+    '2.16.840.1.101.3.4.2.4', '2.16.840.1.101.3.4.2.5', '2.16.840.1.101.3.4.2.6',        # sha224 sha512-224 sha512-256
+    '2.16.840.1.101.3.4.2.7', '2.16.840.1.101.3.4.2.8', '2.16.840.1.101.3.4.2.9',        # sha3-224 sha3-256 sha3-384
+    '2.16.840.1.101.3.4.2.10', '2.16.840.1.101.3.4.2.11', '2.16.840.1.101.3.4.2.12',     # sha3-512 shake128 shake256
+    '1.3.36.3.2.1', '1.0.10118.3.0.55', '1.2.156.10197.1.401',                          # ripemd160 whirlpool sm3
+    '1.3.6.1.4.1.1722.12.2.1.16', '1.3.6.1.4.1.1722.12.2.2.8',                           # blake2b512 blake2s256
+    '1.2.840.113549.1.1.11', '1.2.840.113549.2.9', '2.5.8.3.101',                        # sha256WithRSA hmacWithSHA256 mdc2
+    'OID.2.16.840.1.101.3.4.2.1', '2.16.840.1.101.3.4.2', '0.0',
+)
+SPECIALS = (
+    '', ' ', '\t', 'null', 'Null', 'none', 'None', 'nil', 'default', 'any', '*', 'x', '0', 'md', 'sha', 'sha2', 'sha3',
+    'sha25', 'sha2567', 'sha3_987', 'sha512_257', 'blake2', 'blake2b_512', 'blake2b-256', 'md5sum', 'md55', 'nosuchhash',
+    'FOO', 'hash', 'digest', 'size', 'SIZE', '__SIZE__', '__Size__', ' __size__', '__size__ ', '_size_', '__size', 'size__',
+    '__size__\x00', '__size__,md5', 'md5,sha1', 'md5 sha1', '__len__', '__md5__', '__sha256__',
+)
+SPELLING_CLASSES = ('identity', 'separator', 'case', 'blank', 'openssl_name', 'oid', 'special')
+
+
+def _case_variants(b):
+    alt = ''.join(c.upper() if i % 2 else c.lower() for i, c in enumerate(b))
+    alt2 = ''.join(c.lower() if i % 2 else c.upper() for i, c in enumerate(b))
+    return [b.upper(), b.lower(), b.capitalize(), b.title(), b.swapcase(), alt, alt2]
+
+
+def _separator_variants(b):
+    out = [b.replace('_', '-'), b.replace('-', '_'), b.replace('_', '').replace('-', '')]
+    for sep in '-_':
+        out.append(re.sub(r'(?<=[A-Za-z])(?=[0-9])', sep, b, count=1))
+    return out
+
+
+_SPELL = None
+
+
+def spellings():
+    """-> ordered {name: class}; the class is the first rule that produced the name."""
+    global _SPELL
+    if _SPELL is None:
+        out = {}
+
+        def add(name, cls):
+            out.setdefault(name, cls)
+        bases = sorted(set(hashlib.algorithms_available) | set(hashlib.algorithms_guaranteed)
+                       | set(MANIFEST_NAMES) | {'ripemd160', 'whirlpool'})
+        for b in bases:
+            add(b, 'identity')
+        for b in bases:
+            seps = [v for v in _separator_variants(b) if v != b]
+            for v in seps:
+                add(v, 'separator')
+            for v in [b] + seps:
+                for c in _case_variants(v):
+                    add(c, 'case')
+            for v in (b, b.upper()):
+                for c in (' ' + v, v + ' ', '\t' + v, v + '\n', v + '\x00'):
+                    add(c, 'blank')
+        for b in OPENSSL_NAMES:
+            for v in (b, b.upper(), b.lower(), b.capitalize()):
+                add(v, 'openssl_name')
+        for b in OIDS:
+            add(b, 'oid')
+        for b in SPECIALS:
+            add(b, 'special')
+        _SPELL = out
+    return _SPELL
+
+
+def cli_representable(name):
+    """`gemato hash -H` splits its argument at white space: such names cannot be handed over."""
+    return bool(name) and not any(c.isspace() or c == '\x00' for c in name)
+
+
+def spelling_lengths(tier):
+    return [0, 100] if tier == 'quick' else [0, 1, 100, 65537]
+
+
+SPELLING_CHUNKS = 6
+PARTNER = {'hashlib': 'sha1', 'manifest': 'SHA1'}
 
 
 _REF = {}
@@ -314,7 +639,7 @@ def small_schedules(L):
 def short_positions(L, tier):
     w = 2 if tier == 'quick' else 8
     ps = set()
-    for t in THRESHOLDS:
+    for t in sorted(set(BASE_SHORT_AT) | set(hinted_centres()[0])):
         ps.update(p for p in range(t - w, t + w + 1) if 0 < p < L)
     ps.update(p for p in (1, 2, L // 2, L - 2, L - 1) if 0 < p < L)
     return sorted(ps)
@@ -329,6 +654,16 @@ def light_schedules(L, tier):
     return out
 
 
+def fallback_schedules(L, centre):
+    """Light treatment of a power-of-two fallback window."""
+    out = [('whole', 0, ())]
+    out += [(f'step{k}', k, ()) for k in (4096, 65536) if k < L]
+    out.append(('halving', 0, halving_cuts(L)))
+    ps = {p for p in range(centre - 2, centre + 3)} | {1, 2, L // 2, L - 2, L - 1}
+    out += [(f'short@{p}', 0, (p,)) for p in sorted(ps) if 0 < p < L]
+    return out
+
+
 def single_schedules(L, tier):
     if tier != 'quick':
         return light_schedules(L, tier)
@@ -340,12 +675,7 @@ def hints_for(L):
 
 
 def large_lengths(tier):
-    out = []
-    for c in (65536, 131072, 1048576):
-        out += list(range(c - 2, c + 3))
-    if tier != 'quick':
-        out += [2097151, 2097152, 2097153]
-    return out
+    return sorted(windows(tier))
 
 
 # ---------------------------------------------------------------- execution
@@ -400,7 +730,65 @@ def exec_scripted(entry, data, names, hint, step, cuts, peek):
     return o, raw
 
 
+def _backmap(kind, names, res):
+    """Result of hash_file / hash_path re-keyed by the names of ``kind`` -> (mapping, keys nobody asked for)."""
+    if not isinstance(res, dict):
+        return res, 0
+    if kind == 'manifest':
+        try:
+            mapped = list(gman.manifest_hashes_to_hashlib(list(names)))
+        except Exception:       # a name gemato does not map, and yet there is a result: hand it on as it is
+            return res, 0
+        out = {m: res[h] for m, h in zip(names, mapped) if h in res}
+        asked = set(mapped)
+    else:
+        out = {n: res[n] for n in names if n in res}
+        asked = set(names)
+    if '__size__' in res:
+        out['__size__'] = res['__size__']
+    return out, len(set(res) - asked - {'__size__'})
+
+
+def exec_iter(entry, kind, names, container, sizepos, data=None, path=None, hint=0, step=0, cuts=()):
+    """-> observation whose value is (mapping keyed like ``names``, number of unrequested keys)"""
+    if entry == 'hash_file_iter':
+        f = io.BufferedReader(ScriptedRaw(data, step, cuts))
+
+        def go():
+            return _backmap(kind, names, ghash.hash_file(f, hashlib_request(container, sizepos, kind, names),
+                                                         _apparent_size=hint))
+    elif entry == 'hash_path_iter':
+        def go():
+            return _backmap(kind, names, ghash.hash_path(path, hashlib_request(container, sizepos, kind, names)))
+    elif entry == 'get_file_metadata_iter':
+        def go():
+            g = gverify.get_file_metadata(path, make_container(container, list(names)))
+            try:
+                return list(g), 0
+            finally:
+                g.close()
+    else:
+        raise ValueError(entry)
+    return gem.call(go)
+
+
+FILLER_DIGEST = 'd41d8cd98f00b204e9800998ecf8427e'
+
+
+def _verify_names(path, names, data):
+    sums = {n: (rm.hexdigest(n, data) if n in rm.HASHES and rm.available(n) else FILLER_DIGEST) for n in names}
+    return gverify.verify_path(path, _entry(len(data), sums))
+
+
 def exec_real(entry, path, names, repeat=1, data=None):
+    if entry == 'get_hash_by_name':
+        def one():
+            h = ghash.get_hash_by_name(names[0])
+            h.update(data)
+            return {names[0]: h.hexdigest()}
+        return gem.call(one)
+    if entry == 'verify_path_names':
+        return gem.call(_verify_names, path, names, data)
     if entry == 'hash_path':
         return gem.call(ghash.hash_path, path, list(names) + ['__size__'])
     if entry == 'hash_path_mapped':
@@ -436,24 +824,30 @@ def _exc_sig(check, entry, o):
     return sig
 
 
-def _check_mapping(entry, kind, names, seed, L, v, out):
+def _check_mapping(entry, kind, names, seed, L, v, out, want_size=True):
     if not isinstance(v, dict):
         out.append(({'check': 'result_not_mapping', 'entry': entry},
                     f'{entry}: result is {type(v).__name__}, not a mapping'))
         return
     sz = v.get('__size__')
-    if type(sz) is not int or sz != L:
+    if want_size and (type(sz) is not int or sz != L):
         out.append(({'check': 'size_mismatch', 'entry': entry},
                     f'{entry}: __size__ = {sz!r} for content of {L} bytes'))
     for n in names:
         ref = refdigest(kind, n, seed, L)
         if v.get(n) != ref:
+            have = (f'digest {v[n]!r} !=' if n in v else
+                    f'is missing from the result (keys {sorted(map(str, v))[:6]}), expected the')
             out.append(({'check': 'digest_mismatch', 'entry': entry, 'name': n},
-                        f'{entry}: {n} digest {v.get(n)!r} != one-shot digest {ref!r} of the '
+                        f'{entry}: {n} {have} one-shot digest {ref!r} of the '
                         f'{L}-byte content'))
 
 
-def judge(entry, kind, names, seed, L, o, repeat=1):
+WHY_UNSUPPORTED = {'manifest': 'not one of the ten Manifest names, or its algorithm is unavailable',
+                   'hashlib': 'not a hashlib.algorithms_available name that hashlib.new() accepts'}
+
+
+def judge(entry, kind, names, seed, L, o, repeat=1, want_size=True):
     """-> (verdict label, outcome label, [(sig, message), ...])"""
     what, info = expectation(kind, names)
     got = gem.brief(o) if o['kind'] != 'ret' or entry.startswith('cli') else 'ret'
@@ -461,8 +855,12 @@ def judge(entry, kind, names, seed, L, o, repeat=1):
         return what, got, []
     out = []
     is_cli = entry.startswith('cli')
+    if entry in ITER_ENTRIES and o['kind'] == 'ret':
+        o = dict(o, value=o['value'][0])
+    if entry == 'verify_path_names':
+        return _judge_verify_names(entry, what, info, names, o, got)
     if what == 'unsupported':
-        desc = f'{entry}: name(s) {info} not supported (not in the Manifest table or unavailable)'
+        desc = f'{entry}: name(s) {info!r} not supported ({WHY_UNSUPPORTED[kind]})'
         if is_cli:
             if o['kind'] == 'exc' and o.get('class') != 'exit':
                 out.append((_exc_sig('unsupported_name_wrong_exception', entry, o),
@@ -516,13 +914,42 @@ def judge(entry, kind, names, seed, L, o, repeat=1):
                         f'{entry}: {o["exc"]}({o.get("msg", "")}) for supported names {names}'))
         return what, got, out
     v = o['value']
-    if entry == 'get_file_metadata':
+    if entry in ('get_file_metadata', 'get_file_metadata_iter'):
         if not (isinstance(v, list) and len(v) == 6 and v[0] is True):
             out.append(({'check': 'metadata_shape', 'entry': entry},
                         f'{entry}: generator yielded {str(v)[:120]} for a regular file'))
             return what, got, out
         v = v[5]
-    _check_mapping(entry, kind, names, seed, L, v, out)
+    _check_mapping(entry, kind, names, seed, L, v, out, want_size and entry != 'get_hash_by_name')
+    return what, got, out
+
+
+def _judge_verify_names(entry, what, info, names, o, got):
+    """verify_path on an unchanging file against an entry with the true size and, for every supported name, the
+    reference digest: supported names -> (True, []); an unsupported name -> UnsupportedHash, never (True, ...)."""
+    out = []
+    if what == 'unsupported':
+        desc = f'{entry}: entry carries name(s) {info!r} ({WHY_UNSUPPORTED["manifest"]})'
+        if o['kind'] == 'ret':
+            r = _norm_diff(o['value'])
+            if r is None or r[0]:
+                out.append(({'check': 'unsupported_name_ignored', 'entry': entry},
+                            f'{desc} but verify_path returned {str(o["value"])[:120]}'))
+            else:
+                return 'dontcare', got, []
+        elif o['exc'] != 'UnsupportedHash':
+            out.append((_exc_sig('unsupported_name_wrong_exception', entry, o),
+                        f'{desc} but {o["exc"]}({o.get("msg", "")}) was raised instead of UnsupportedHash'))
+        return what, got, out
+    if o['kind'] == 'exc':
+        chk = ('supported_name_rejected' if o['exc'] == 'UnsupportedHash' else
+               'internal_error' if o.get('class') == 'internal' else 'unexpected_exception')
+        sig = {'check': chk, 'entry': entry, 'got': got} if chk == 'supported_name_rejected' else _exc_sig(chk, entry, o)
+        out.append((sig, f'{entry}: {o["exc"]}({o.get("msg", "")}) for supported names {names}'))
+    elif _norm_diff(o['value']) != (True, []):
+        out.append(({'check': 'verify_digest_not_of_content', 'entry': entry},
+                    f'{entry}: entry with the true size and the one-shot digests for {names} of an unchanging file: '
+                    f'verify_path returned {str(o["value"])[:160]}, expected (True, [])'))
     return what, got, out
 
 
@@ -536,9 +963,12 @@ ENTRY_PATH = 'entry-path'       # verify_path / update_entry_for_path do not loo
 
 def changing_lengths(tier):
     out = [0, 1, 2, 100]
-    for c in (65536, 1048576) if tier == 'quick' else (8192, 65536, 131072, 1048576):
+    t = tuning()
+    extra = [v for v in (t['buffer'], t['slurp'])
+             if v is not None and v not in (DEFAULT_BUFFER, DEFAULT_SLURP) and 3 < v <= MAX_CENTRE]
+    for c in ((65536, 1048576) if tier == 'quick' else (8192, 65536, 131072, 1048576)) + tuple(extra):
         out += [c - 1, c, c + 1]
-    return sorted(out)
+    return sorted(set(out))
 
 
 def stepwise_namesets():
@@ -774,6 +1204,39 @@ def run_changing_case(case, path):
     return o, extra, post, what, got, viols
 
 
+# ---------------------------------------------------------------- kinds of iterable: one case
+
+def iter_case(entry, seed, L, kind, names, container, sizepos, hint=None, sched=None):
+    c = {'entry': entry, 'seed': seed, 'L': L, 'kind': kind, 'names': list(names), 'container': container,
+         'sizepos': sizepos}
+    if entry == 'hash_file_iter':
+        c['hint'] = hint
+        c['sched'] = [sched[0], sched[1], list(sched[2])]
+        c['peek'] = 0
+    return c
+
+
+def run_iter_case(case, path):
+    """``path`` holds pattern(seed, L) already (hash_path_iter / get_file_metadata_iter).
+    -> (observation, verdict, outcome, violations)"""
+    entry, seed, L, kind = case['entry'], case['seed'], case['L'], case['kind']
+    names = tuple(case['names'])
+    container, sizepos = case['container'], case['sizepos']
+    if entry == 'hash_file_iter':
+        _label, step, cuts = case['sched']
+        o = exec_iter(entry, kind, names, container, sizepos, data=pattern(seed, L), hint=case['hint'],
+                      step=step, cuts=tuple(cuts))
+    else:
+        o = exec_iter(entry, kind, names, container, sizepos, path=path)
+    want_size = sizepos != 'absent' or entry == 'get_file_metadata_iter'
+    what, got, viols = judge(entry, kind, names, seed, L, o, want_size=want_size)
+    how = f'names given as {container}' + ('' if entry == 'get_file_metadata_iter' else f', __size__ {sizepos}')
+    # one signature per (check, entry point, container): the hash name stays in the message only
+    viols = [(dict({k: v for k, v in sig.items() if k != 'name'}, container=container), f'{msg} [{how}]')
+             for sig, msg in viols]
+    return o, what, got, viols
+
+
 # ---------------------------------------------------------------- one case
 
 def make_case(entry, seed, L, kind, names, hint=None, sched=None, peek=0, repeat=1):
@@ -815,16 +1278,18 @@ class Ctx:
         self.stats = stats
         self.seed = seed
         self.scratch = scratch
-        self.max_slurp = ghash.MAX_SLURP_SIZE
+        self.max_slurp = tuning()['slurp'] or DEFAULT_SLURP      # labels of the path-observation counters only
         self.seen_sigs = set()
         self.sampled_changing = False
+        self.sampled_iter = False
 
     def record(self, entry, L, kind, names, what, got, viols, case_fn, desc):
         st = self.stats
         st.evaluations += 1
         st.transitions += 1
         if what == 'dontcare':
-            st.dontcare[XOF_REASON] += 1
+            e = expectation(kind, names)
+            st.dontcare[e[1] if e[0] == 'dontcare' else DIFF_REASON] += 1
         else:
             st.compared += 1
         st.case(desc, nontrivial=(L > 0 and what != 'dontcare'))
@@ -890,6 +1355,26 @@ class Ctx:
             st.sample({'entry': entry, 'length': L, 'names': list(names), 'verdict': what, 'got': got})
         return o
 
+    def iter(self, entry, L, path, kind, names, container, sizepos, hint=None, sched=None):
+        case = iter_case(entry, self.seed, L, kind, names, container, sizepos, hint, sched)
+        o, what, got, viols = run_iter_case(case, path)
+        c = self.stats.counters
+        c['iter_cases_' + container] += 1
+        c['iter_cases_' + entry] += 1
+        if what == 'digest' and not viols:
+            c['iter_ok_digest_' + container] += 1
+        elif what == 'unsupported' and not viols:
+            c['iter_ok_unsupported'] += 1
+        if o['kind'] == 'ret' and o['value'][1]:
+            c['iter_results_with_unrequested_keys'] += 1
+        self.record(entry, L, kind, names, what, got, viols, lambda: case,
+                    (entry, L, kind, names, container, sizepos, hint, tuple(case.get('sched', ())[:2])))
+        if container == 'genexpr' and entry == 'hash_file_iter' and L == 100 and len(names) > 2 and not self.sampled_iter \
+                and what == 'digest' and sizepos == 'last':
+            self.sampled_iter = True
+            self.stats.sample({'entry': entry, 'length': L, 'names': list(names), 'container': container,
+                               'size_position': sizepos, 'hint': hint, 'verdict': what, 'got': got,
+                               'violations': len(viols)})
 
     def changing(self, entry, L, change, names, path, esize=None, hashes=None):
         case = changing_case(entry, self.seed, L, change, names, esize, hashes)
@@ -933,6 +1418,8 @@ def describe(case):
             s += f' entry_size={case["esize"]}'
         if 'hashes' in case:
             s += f' hashes={case["hashes"]!r}'
+    if 'container' in case:
+        s += f' container={case["container"]} size_position={case["sizepos"]}'
     if 'hint' in case:
         sc = case['sched']
         s += f' hint={case["hint"]} schedule={sc[0]} step={sc[1]} cuts={sc[2][:8]} peek={case.get("peek", 0)}'
@@ -953,6 +1440,14 @@ def replay(case, scratch):
         r = run_changing_case(case, os.path.join(root, file_name(seed)))
         return [{'sig': sig, 'case': case, 'message': f'{msg} [case {describe(case)}]'}
                 for sig, msg in (r[5] if r else [])]
+    if entry in ITER_ENTRIES:
+        root = fresh_root(scratch)
+        path = os.path.join(root, file_name(seed))
+        if entry != 'hash_file_iter':
+            with open(path, 'wb') as f:
+                f.write(data)
+        _o, _what, _got, viols = run_iter_case(case, path)
+        return [{'sig': sig, 'case': case, 'message': f'{msg} [case {describe(case)}]'} for sig, msg in viols]
     if entry in SCRIPTED:
         label, step, cuts = case['sched']
         o, _raw = exec_scripted(entry, data, names, case['hint'], step, tuple(cuts), case.get('peek', 0))
@@ -1008,9 +1503,18 @@ def run_large(spec, tier, seed, ctx):
     sets = rot(namesets(), seed)
     data = pattern(seed, L)
     hint = hints_for(L)[hi]
-    light = light_schedules(L, tier)
-    single = set(single_schedules(L, tier))
-    with_peek = tier != 'quick' or hint in (0, L)
+    treatment, centre = windows(tier)[L]
+    if treatment == 'light':
+        red = {n for _k, n, _g in reduced_namesets()}
+        sets = [x for x in sets if x[2] or x[1] in red]
+        light = fallback_schedules(L, centre)
+        single = set(light)
+        with_peek = False
+        ctx.stats.counters['lengths_light_treatment'] += hi == 0
+    else:
+        light = light_schedules(L, tier)
+        single = set(single_schedules(L, tier))
+        with_peek = tier != 'quick' or hint in (0, L)
     if hi == 0:
         ctx.stats.counters['lengths_scripted'] += 1
         ctx.stats.counters['short_read_positions'] += sum(1 for s in light if s[0].startswith('short@'))
@@ -1128,7 +1632,98 @@ def run_changing(spec, tier, seed, ctx):
     os.unlink(path)
 
 
-RUNNERS = {'C': run_changing, 'S': run_small, 'L': run_large, 'K': run_heavy, 'R': run_real, 'RL': run_real_large}
+WHOLE = ('whole', 0, ())
+
+
+def run_iter(spec, tier, seed, ctx):
+    """One container kind over some lengths: every name set x __size__ position x hint x schedule."""
+    _t, lengths, container = spec
+    root = fresh_root(ctx.scratch)
+    path = os.path.join(root, file_name(seed))
+    for L in lengths:
+        with open(path, 'wb') as f:
+            f.write(pattern(seed, L))
+        combos, poss = iter_combos(L, tier)
+        for kind, names, _group in rot(iter_namesets(L, tier), seed):
+            if container == 'mapped_gen' and kind != 'manifest':
+                continue
+            for sizepos, hint, sched in combos:
+                ctx.iter('hash_file_iter', L, path, kind, names, container, sizepos, hint, sched)
+            for sizepos in poss:
+                ctx.iter('hash_path_iter', L, path, kind, names, container, sizepos)
+            if kind == 'manifest' and container != 'mapped_gen':
+                ctx.iter('get_file_metadata_iter', L, path, kind, names, container, 'absent')
+    os.unlink(path)
+
+
+def iter_expected(tier):
+    """Number of cases run_iter must have run, per container."""
+    out = {c: 0 for c in CONTAINERS}
+    for L in iter_lengths(tier):
+        combos, poss = iter_combos(L, tier)
+        for kind, _names, _g in iter_namesets(L, tier):
+            for c in CONTAINERS:
+                if c == 'mapped_gen' and kind != 'manifest':
+                    continue
+                out[c] += len(combos) + len(poss) + (kind == 'manifest' and c != 'mapped_gen')
+    return out
+
+
+def spelling_candidates(kind):
+    names = list(spellings())
+    if kind == 'manifest':
+        names.append('__size__')
+    return names
+
+
+def run_spelling(spec, tier, seed, ctx):
+    """One slice of the spelling alphabet at one length through every entry point of the kind."""
+    _t, kind, L, chunk = spec
+    data = pattern(seed, L)
+    root = fresh_root(ctx.scratch)
+    path = os.path.join(root, file_name(seed))
+    with open(path, 'wb') as f:
+        f.write(data)
+    partner = PARTNER[kind]
+    classes = spellings()
+    c = ctx.stats.counters
+    hints = sorted({0, L})
+    for x in rot(spelling_candidates(kind)[chunk::SPELLING_CHUNKS], seed):
+        verdict = expectation(kind, (x,))[0]
+        before = ctx.stats.evaluations
+        alone, first, last = (x,), (x, partner), (partner, x)
+        if kind == 'hashlib':
+            ctx.real('get_hash_by_name', L, data, path, kind, alone)
+            ctx.real('hash_bytes', L, data, path, kind, alone)
+            ctx.real('hash_path', L, data, path, kind, alone)
+            for hint in hints:
+                ctx.scripted('hash_file', L, data, kind, alone, hint, WHOLE)
+            for names in (first, last):
+                ctx.scripted('hash_file', L, data, kind, names, 0, WHOLE)
+        else:
+            for hint in hints:
+                ctx.scripted('hash_file_mapped', L, data, kind, alone, hint, WHOLE)
+            for names in (first, last):
+                ctx.scripted('hash_file_mapped', L, data, kind, names, 0, WHOLE)
+            ctx.real('hash_path_mapped', L, data, path, kind, alone)
+            for names in (alone, first, last):
+                ctx.real('get_file_metadata', L, data, path, kind, names)
+            ctx.real('verify_path_names', L, data, path, kind, alone)
+            if cli_representable(x):
+                ctx.real('cli_hash', L, data, path, kind, alone)
+                ctx.real('cli_hash', L, data, path, kind, last)
+                ctx.scripted('cli_stdin', L, data, kind, alone, 0, WHOLE)
+            else:
+                c['spelling_names_not_representable_on_the_command_line'] += 1
+        c['spelling_names_' + kind] += 1
+        c[f'spelling_names_{classes.get(x, "special")}'] += 1
+        c[f'spelling_names_verdict_{verdict}'] += 1
+        c['spelling_cases'] += ctx.stats.evaluations - before
+    os.unlink(path)
+
+
+RUNNERS = {'C': run_changing, 'S': run_small, 'L': run_large, 'K': run_heavy, 'R': run_real, 'RL': run_real_large,
+           'I': run_iter, 'N': run_spelling}
 
 
 def _cost(spec):
@@ -1141,6 +1736,10 @@ def _cost(spec):
         return (2 * spec[1] + APPEND.get(spec[2], 0)) * 40 + 200000
     if t == 'RL':
         return spec[1] * 8
+    if t == 'I':
+        return sum(400000 + 12 * L for L in spec[1]) * (1 if spec[2] == 'mapped_gen' else 2)
+    if t == 'N':
+        return 400000 + 400 * spec[2]
     if t == 'S':
         return sum((1 << max(L - 1, 0)) * 40 if L <= COMP_MAX else 2500 + 25 * L for L in spec[1]) * 60
     return sum(3000 + L for L in spec[1]) * 60
@@ -1158,7 +1757,9 @@ def shards(tier, seed):
         out += [('L', L, hi) for hi in range(nh)]
         out.append(('RL', L))
         allh = tuple(range(nh))
-        if L < 1000000:
+        if windows(tier)[L][0] == 'light':
+            continue
+        if L < HEAVY_FULL_MAX:
             out += [('K', L, k, allh, 'full') for k in STEPS_HEAVY]
         elif tier == 'quick':
             # 1 MiB in 1-byte reads costs ~1 s per execution: one hashlib name under every hint for k=1,
@@ -1171,13 +1772,21 @@ def shards(tier, seed):
             out += [('K', L, k, (hi,), 'full') for k in (1, 2) for hi in allh]
             out += [('K', L, k, allh, 'full') for k in (3, 7)]
     out += [('C', L, ch) for L in changing_lengths(tier) for ch in CHANGES if applicable(L, ch)]
+    il = iter_lengths(tier)
+    for cont in CONTAINERS:
+        out.append(('I', tuple(L for L in il if L <= SMALL_MAX), cont))
+        out += [('I', (L,), cont) for L in il if L > SMALL_MAX]
+    out += [('N', kind, L, i) for kind in ('hashlib', 'manifest') for L in spelling_lengths(tier)
+            for i in range(SPELLING_CHUNKS)]
     out.sort(key=_cost, reverse=True)
     return out
 
 
 def setup(tier, seed, base):
     global _REGISTRY
+    _PATTERN_MIN[0] = (max_length(tier) + 67) // 4 * 4
     pattern(seed, 1 << 21)           # built once in the parent, inherited by the forked workers
+    spellings()
     hashlib_accepted()
     _REGISTRY = os.path.join(base, 'c17-reported-signatures')
     os.makedirs(_REGISTRY, exist_ok=True)
@@ -1196,9 +1805,18 @@ def run_shard(spec, tier, seed, scratch):
 def finish(total, tier):
     errs = []
     c = total.counters
-    if ghash.MAX_SLURP_SIZE != 1048576 or ghash.HASH_BUFFER_SIZE != 65536:
-        errs.append('gemato.hash thresholds moved (MAX_SLURP_SIZE/HASH_BUFFER_SIZE): the length windows '
-                    'of this harness no longer straddle them')
+    t = tuning()
+    strict = tuning_is_default()
+    soft = []            # self-checks that presuppose where gemato switches between its reading strategies
+    if not strict:
+        add, beyond = hinted_centres()
+        total.notes.append(
+            f'gemato.hash tuning constants are not at their usual values (MAX_SLURP_SIZE={t["slurp"]!r}, '
+            f'HASH_BUFFER_SIZE={t["buffer"]!r}; None = absent): default windows kept, windows added around {add}'
+            + (f', values {beyond} are beyond the {MAX_CENTRE}-byte bound and not explored' if beyond else '')
+            + ('; power-of-two fallback windows in use' if None in t.values() else '')
+            + '; path-observation self-checks downgraded to notes')
+    buf = t['buffer'] or DEFAULT_BUFFER
     n_lengths = SMALL_MAX + 1 + len(large_lengths(tier))
     if c['lengths_scripted'] != n_lengths:
         errs.append(f'vacuity: {c["lengths_scripted"]} lengths went through the scripted reader, expected {n_lengths}')
@@ -1211,11 +1829,17 @@ def finish(total, tier):
     for key, why in (('ok_true_hint_below_slurp_limit', 'no correct digest with a true size hint below MAX_SLURP_SIZE (slurp path)'),
                      ('ok_true_hint_at_or_above_slurp_limit', 'no correct digest with a true size hint >= MAX_SLURP_SIZE (chunked path)'),
                      ('ok_multi_chunk_reads', 'no correct digest under a schedule that delivered the content in more than one read'),
-                     (f'ok_largest_read_request_{ghash.HASH_BUFFER_SIZE}', 'the raw stream never saw a HASH_BUFFER_SIZE read request (chunked path not observed)'),
+                     (f'ok_largest_read_request_{buf}', 'the raw stream never saw a HASH_BUFFER_SIZE read request (chunked path not observed)'),
                      (f'ok_largest_read_request_{io.DEFAULT_BUFFER_SIZE}', 'the raw stream never saw only DEFAULT_BUFFER_SIZE requests (slurp path not observed)'),
                      ('short_read_positions', 'no single-short-read schedule around the thresholds')):
         if not c[key]:
-            errs.append('vacuity: ' + why)
+            if key.startswith('ok_largest'):
+                # what the raw stream is asked for is gemato's reading strategy, not the property: a correct
+                # implementation may read differently, so this observation is recorded, never enforced
+                total.notes.append('observation: ' + why)
+                continue
+            path_guard = key.startswith('ok_true_hint')
+            (errs if strict or not path_guard else soft).append('vacuity: ' + why)
     if c['coreutils_crosschecks'] != len(COREUTILS) * len(large_lengths(tier)):
         errs.append(f'vacuity: {c["coreutils_crosschecks"]} coreutils cross-checks, expected '
                     f'{len(COREUTILS) * len(large_lengths(tier))}')
@@ -1244,7 +1868,47 @@ def finish(total, tier):
                      ('static_ok_size_equal', 'no entry without checksums with the file\'s size was judged correct')):
         # the *_ok_* counters also drop to zero when gemato gets all of those cases wrong; the violations say so
         if not c[key] and not (('_ok_' in key) and c['violations_raw']):
-            errs.append('vacuity (changing files): ' + why)
+            path_guard = '_path' in key or 'slurp_limit' in key
+            (errs if strict or not path_guard else soft).append('vacuity (changing files): ' + why)
+    for msg in soft:
+        total.notes.append('not enforced while the tuning constants are moved/absent: ' + msg)
+
+    # kinds of iterable
+    complete = not total.capped          # a shard that drowned in violations stopped early: its counts are short
+    for cont, want in iter_expected(tier).items():
+        if (c['iter_cases_' + cont] != want and complete) or not want:
+            errs.append(f'vacuity (kinds of iterable): {c["iter_cases_" + cont]} cases with container {cont}, expected {want}')
+        if not c['iter_ok_digest_' + cont] and not c['violations_raw']:
+            errs.append(f'vacuity (kinds of iterable): no correct digest with the names given as {cont}')
+    for e in ITER_ENTRIES:
+        if not c['iter_cases_' + e]:
+            errs.append(f'vacuity (kinds of iterable): entry point {e} never ran')
+    if not c['iter_ok_unsupported'] and not c['violations_raw']:
+        errs.append('vacuity (kinds of iterable): no unsupported name inside a container was judged correct')
+    iter_classes = {k.split('/')[1] for k in total.outcomes if k.split('/')[0] in ITER_ENTRIES}
+    if len(iter_classes) < 2:
+        errs.append(f'vacuity (kinds of iterable): single verdict class {sorted(iter_classes)}')
+
+    # spellings
+    n_len = len(spelling_lengths(tier))
+    for kind in ('hashlib', 'manifest'):
+        want = len(spelling_candidates(kind)) * n_len
+        if (c['spelling_names_' + kind] != want and complete) or not want:
+            errs.append(f'vacuity (spellings): {c["spelling_names_" + kind]} (name, length) pairs of kind {kind}, expected {want}')
+    for cls in SPELLING_CLASSES:
+        if not c['spelling_names_' + cls]:
+            errs.append(f'vacuity (spellings): no name of class {cls}')
+    for v in ('digest', 'unsupported'):
+        if not c['spelling_names_verdict_' + v]:
+            errs.append(f'vacuity (spellings): no spelling with reference verdict {v!r}')
+    if c['spelling_names_verdict_unsupported'] < 20 * c['spelling_names_verdict_digest'] / 10:
+        errs.append('vacuity (spellings): fewer than two unsupported spellings per supported name')
+    if not c['spelling_cases']:
+        errs.append('vacuity (spellings): no case ran')
+    for e in ('get_hash_by_name', 'verify_path_names'):
+        classes = {k.split('/')[1] for k in total.outcomes if k.split('/')[0] == e}
+        if not {'digest', 'unsupported'} <= classes:
+            errs.append(f'vacuity (spellings): {e} saw verdict classes {sorted(classes)} only')
     kinds = {k.split('/')[1] for k in total.outcomes}
     for need in ('digest', 'unsupported'):
         if need not in kinds:
@@ -1259,7 +1923,23 @@ def finish(total, tier):
 
 def extra_evidence(total, tier):
     acc, fixed = hashlib_accepted()
+    sp = spellings()
+    unsup = {k: [n for n in spelling_candidates(k) if expectation(k, (n,))[0] == 'unsupported']
+             for k in ('hashlib', 'manifest')}
     return {
+        'tuning_constants_seen': tuning(),
+        'window_centres_full_treatment': full_centres(tier),
+        'window_centres_light_treatment': sorted({ce for tr, ce in windows(tier).values() if tr == 'light'}),
+        'iterable_kinds': list(CONTAINERS),
+        'iterable_size_positions': list(SIZEPOS),
+        'iterable_lengths': iter_lengths(tier),
+        'iterable_cases_expected': sum(iter_expected(tier).values()),
+        'spelling_alphabet_size': len(sp),
+        'spelling_alphabet_by_class': {cls: sum(1 for v in sp.values() if v == cls) for cls in SPELLING_CLASSES},
+        'spelling_lengths': spelling_lengths(tier),
+        'spellings_unsupported_hashlib_kind': len(unsup['hashlib']),
+        'spellings_unsupported_manifest_kind': len(unsup['manifest']),
+        'spellings_unsupported_sample': unsup['hashlib'][:40],
         'lengths': SMALL_MAX + 1 + len(large_lengths(tier)),
         'large_lengths': large_lengths(tier),
         'name_sets': len(namesets()),
